@@ -612,6 +612,17 @@ Proof.
   cbn [andb enc_items mbind fst snd apply_aty set_on_first length]. rewrite N.eqb_refl. reflexivity.
 Qed.
 
+Lemma none_rule_l : forall S m,
+  enc_param S m VNone =
+  MOk (if m_opt m then []
+       else [EX (mem_ns m) (m_name m)
+               (xsi_type (tref_qn (m_type m)) :: if m_nil m then [enil_attr] else []) None []]) /\
+  ref_elem S m VNone =
+  Some (if m_opt m then []
+        else [EX (mem_ns m) (m_name m)
+                (xsi_type (tref_qn (m_type m)) :: if m_nil m then [enil_attr] else []) None []]).
+Proof. intros S m. unfold enc_param. cbn [enc_elem ref_elem]. destruct (m_opt m); split; reflexivity. Qed.
+
 (* the node written for a list: typed with the array type, arrayType = member
    type + [length], exactly one unqualified <item> per entry *)
 Lemma array_node_shape_l : forall S m T l,
@@ -670,6 +681,265 @@ Proof.
   rewrite ref_elem_obj, Hs in Hr. destruct (negb _); [discriminate|].
   destruct (edecls_of _ _) as [ks|] eqn:E; [|discriminate]. inversion Hr; subst.
   exists ks. split; [exact He | exact (edecls_subseq _ _ _ _ E)].
+Qed.
+
+(* ------------------------------------------------------------------ *)
+(* 6. arrayType lengths are exact for EVERY input the marshaller        *)
+(*    accepts -- no conformance hypothesis (the duplicated-member quirk  *)
+(*    included: the misplaced arrayType still has the right length)      *)
+(* ------------------------------------------------------------------ *)
+Lemma lengths_exact_eq ns nm ats tx ks :
+  lengths_exact (EX ns nm ats tx ks) = aty_len_ok ats (length ks) && forallb lengths_exact ks.
+Proof. unfold lengths_exact. apply deep_ok_eq. Qed.
+
+Lemma akey_aty_attr T n b : akey_eqb (aty_attr T n) b = is_aty_key b.
+Proof.
+  unfold akey_eqb, is_aty_key, aty_attr. cbn [fst snd].
+  rewrite (N.eqb_sym ns_enc), (N.eqb_sym n_arrayType). reflexivity.
+Qed.
+
+Lemma set_attr_len_ok T n ats : aty_len_ok (set_attr (aty_attr T n) ats) n = true.
+Proof.
+  unfold set_attr, aty_len_ok.
+  destruct (existsb (akey_eqb (aty_attr T n)) ats) eqn:E.
+  - apply forallb_forall. intros b Hb. apply in_map_iff in Hb as [b0 [Hb0 _]].
+    rewrite akey_aty_attr in Hb0. destruct (is_aty_key b0) eqn:Eb; subst b.
+    + cbn. rewrite N.eqb_refl. reflexivity.
+    + rewrite Eb. reflexivity.
+  - rewrite forallb_app. apply andb_true_iff. split.
+    + apply forallb_forall. intros b Hb.
+      destruct (is_aty_key b) eqn:Eb; [|reflexivity].
+      exfalso. assert (Hex : existsb (akey_eqb (aty_attr T n)) ats = true).
+      { apply existsb_exists. exists b. split; [exact Hb | rewrite akey_aty_attr; exact Eb]. }
+      congruence.
+    + cbn. rewrite N.eqb_refl. reflexivity.
+Qed.
+
+(* what Core.append leaves behind for one content *)
+Definition out_ok (k : name) (o : eout) : Prop :=
+  Forall (fun n => ename n = k /\ lengths_exact n = true) (fst o) /\
+  match snd o with
+  | None => True
+  | Some a => exists ns ats tx its T, fst o = [EX ns k ats tx its] /\ a = aty_attr T (length its)
+  end.
+
+Definition elem_ok (S : eschema) (v : value) : Prop :=
+  forall m o, enc_elem S m v = MOk o -> out_ok (m_name m) o.
+
+Lemma enc_elem_item_single S m x o :
+  is_list x = false -> m_opt m = false -> enc_elem S m x = MOk o -> length (fst o) = 1.
+Proof.
+  destruct x as [|t|l|ty fs]; intros Hl Ho H; try discriminate.
+  - cbn [enc_elem] in H. rewrite Ho in H. inversion H. reflexivity.
+  - cbn [enc_elem] in H. inversion H. reflexivity.
+  - rewrite enc_elem_obj in H. destruct (struct_type S (real_qn m ty)) as [rt|]; [|discriminate].
+    destruct (assemble_from [] _) as [ks| |]; cbn [mbind] in H; inversion H. reflexivity.
+Qed.
+
+Lemma enc_items_ok S T l : forall its,
+  Forall (elem_ok S) l -> enc_items S T l = MOk its ->
+  length its = length l /\ forallb lengths_exact its = true.
+Proof.
+  induction l as [|x l IH]; intros its HF H.
+  - cbn in H. inversion H. split; reflexivity.
+  - inversion HF as [|? ? Hx HF']; subst. cbn [enc_items] in H.
+    destruct (enc_item S T x) as [a| |] eqn:Ea; cbn [mbind] in H; try discriminate.
+    destruct (enc_items S T l) as [b| |] eqn:Eb; cbn [mbind] in H; try discriminate.
+    inversion H; subst. destruct (IH b HF' eq_refl) as [Hlen Hok].
+    assert (Hnl : is_list x = false) by (destruct x; try reflexivity; discriminate).
+    assert (Ho : exists o, enc_elem S (item_member T) x = MOk o /\ a = fst o).
+    { unfold enc_item in Ea. destruct x; try discriminate;
+        (destruct (enc_elem S (item_member T) _) as [o| |]; cbn [mbind] in Ea; try discriminate;
+         inversion Ea; exists o; split; reflexivity). }
+    destruct Ho as [o [Ho ->]].
+    rewrite app_length, (enc_elem_item_single S (item_member T) x o Hnl eq_refl Ho), Hlen. split; [reflexivity|].
+    rewrite forallb_app, Hok, andb_true_r.
+    destruct (Hx _ _ Ho) as [Hall _]. apply forallb_forall. intros n Hn.
+    rewrite Forall_forall in Hall. apply (Hall n Hn).
+Qed.
+
+Lemma lookup_key_In {A} k (l : list (name * bool * A)) v :
+  lookup_key k l = Some v -> exists kc, In kc l /\ fst kc = k /\ snd kc = v.
+Proof.
+  unfold lookup_key. destruct (find _ l) as [f|] eqn:E; intros H; inversion H; subst.
+  apply find_some in E as [Hin He]. apply key_eqb_eq in He.
+  exists f. repeat split; assumption.
+Qed.
+
+Lemma set_on_first_In k a l n' :
+  In n' (set_on_first k a l) ->
+  In n' l \/ exists ns ats tx kk, In (EX ns k ats tx kk) l /\ n' = EX ns k (set_attr a ats) tx kk.
+Proof.
+  induction l as [|[ns nm ats tx kk] l IH]; [intros []|].
+  cbn [set_on_first]. destruct (N.eqb nm k) eqn:E.
+  - apply N.eqb_eq in E. subst nm. intros [<-|Hin].
+    + right. exists ns, ats, tx, kk. split; [left; reflexivity | reflexivity].
+    + left. right. exact Hin.
+  - intros [<-|Hin].
+    + left. left. reflexivity.
+    + destruct (IH Hin) as [H|[ns0 [ats0 [tx0 [kk0 [H1 H2]]]]]].
+      * left. right. exact H.
+      * right. exists ns0, ats0, tx0, kk0. split; [right; exact H1 | exact H2].
+Qed.
+
+Lemma assemble_error L : forall kc,
+  In kc L -> (forall o, snd kc <> MOk o) -> forall acc ks, assemble_from acc L <> MOk ks.
+Proof.
+  induction L as [|kc0 L IH]; intros kc Hin Herr acc ks; [destruct Hin|].
+  cbn [assemble_from]. destruct Hin as [->|Hin].
+  - destruct (snd kc) as [o| |] eqn:E; cbn [mbind]; try discriminate. exfalso. exact (Herr o eq_refl).
+  - destruct (snd kc0) as [o| |]; cbn [mbind]; try discriminate. apply (IH kc Hin Herr).
+Qed.
+
+Section Assembly.
+Variable pf : list (name * bool * mres eout).
+Hypothesis pf_ok : forall kc o, In kc pf -> snd kc = MOk o -> out_ok (fst (fst kc)) o.
+
+(* every child built so far has exact lengths and the same children as what
+   the (unique) field of its name produces *)
+Definition ainv (acc : list enode) : Prop :=
+  forall n0, In n0 acc ->
+    lengths_exact n0 = true /\
+    exists o n1, lookup_key (ename n0, false) pf = Some (MOk o) /\ In n1 (fst o) /\ ekids n0 = ekids n1.
+
+Lemma assemble_inv : forall L acc ks,
+  (forall kc, In kc L -> snd (fst kc) = false /\ lookup_key (fst kc) pf = Some (snd kc)) ->
+  ainv acc -> assemble_from acc L = MOk ks -> ainv ks.
+Proof.
+  induction L as [|kc L IH]; intros acc ks HL Hinv H.
+  - cbn in H. inversion H; subst. exact Hinv.
+  - cbn [assemble_from] in H. destruct (snd kc) as [o| |] eqn:E; cbn [mbind] in H; try discriminate.
+    destruct (HL kc (or_introl eq_refl)) as [Hb Hlk].
+    destruct kc as [[k b] r]. cbn [fst snd] in *. subst b. subst r.
+    destruct (lookup_key_In _ _ _ Hlk) as [kc' [Hin' [Hk' Hr']]].
+    pose proof (pf_ok kc' o Hin' Hr') as Hok. rewrite Hk' in Hok. cbn [fst] in Hok.
+    destruct Hok as [Hall Hpend].
+    refine (IH _ ks (fun kc0 Hin0 => HL kc0 (or_intror Hin0)) _ H).
+    assert (Hinv1 : ainv (acc ++ fst o)).
+    { intros n0 Hn0. apply in_app_or in Hn0 as [Hn0|Hn0]; [apply Hinv; exact Hn0|].
+      rewrite Forall_forall in Hall. destruct (Hall n0 Hn0) as [Hname Hle].
+      split; [exact Hle|]. exists o, n0. rewrite Hname. repeat split; [exact Hlk | exact Hn0]. }
+    destruct (snd o) as [a|] eqn:Es; cbn [apply_aty]; [|exact Hinv1].
+    destruct Hpend as [ns [ats [tx [its [T [Hfst Ha]]]]]].
+    intros n' Hn'. apply set_on_first_In in Hn' as [Hn'|[ns0 [ats0 [tx0 [kk0 [Hn0 ->]]]]]].
+    + apply Hinv1. exact Hn'.
+    + destruct (Hinv1 _ Hn0) as [Hle [o' [n1 [Hlk' [Hn1 Hkids]]]]].
+      cbn [ename] in Hlk'. rewrite Hlk in Hlk'. inversion Hlk'; subst o'.
+      rewrite Hfst in Hn1. destruct Hn1 as [<-|[]]. cbn [ekids] in Hkids. subst kk0.
+      split.
+      * rewrite lengths_exact_eq in *. apply andb_true_iff in Hle as [_ Hk].
+        rewrite Ha, set_attr_len_ok, Hk. reflexivity.
+      * exists o, (EX ns k ats tx its). cbn [ename ekids]. rewrite Hfst.
+        repeat split; [exact Hlk | left; reflexivity].
+Qed.
+End Assembly.
+
+Lemma get_member_In n l m' : get_member n l = Some m' -> In m' l /\ m_name m' = n.
+Proof.
+  induction l as [|b l IH]; [discriminate|]. cbn [get_member].
+  destruct (N.eqb (m_name b) n) eqn:E.
+  - intros H. inversion H; subst. apply N.eqb_eq in E. split; [left; reflexivity | exact E].
+  - intros H. destruct (IH H) as [H1 H2]. split; [right; exact H1 | exact H2].
+Qed.
+
+Lemma per_field_In S mems fs kc :
+  In kc (per_field_of S mems fs) ->
+  exists x, In (fst kc, x) fs /\ snd kc = field_out S mems (fst (fst kc)) (snd (fst kc)) x.
+Proof.
+  induction fs as [|[[k isattr] x] fs IH]; [intros []|].
+  cbn [per_field_of]. intros [<-|Hin].
+  - exists x. split; [left; reflexivity | reflexivity].
+  - destruct (IH Hin) as [y [H1 H2]]. exists y. split; [right; exact H1 | exact H2].
+Qed.
+
+Lemma elem_ok_all S : forall v, elem_ok S v.
+Proof.
+  intros v. induction v as [|t|l IH|ty fs IH] using value_ind'; intros m o H.
+  - cbn [enc_elem] in H. destruct (m_opt m); inversion H; subst; (split; [|exact I]).
+    + constructor.
+    + repeat constructor. rewrite lengths_exact_eq. destruct (m_nil m); reflexivity.
+  - cbn [enc_elem] in H. inversion H; subst. split; [|exact I]. repeat constructor.
+  - rewrite enc_elem_list in H. destruct (array_item S (m_type m)) as [T|]; [|discriminate].
+    destruct (m_opt m && is_nil l).
+    + inversion H; subst. split; [constructor | exact I].
+    + destruct (enc_items S T l) as [its| |] eqn:E; cbn [mbind] in H; try discriminate.
+      inversion H; subst. destruct (enc_items_ok S T l its IH E) as [Hlen Hok]. split.
+      * repeat constructor. rewrite lengths_exact_eq, Hok. reflexivity.
+      * cbn [snd fst]. exists (mem_ns m), [xsi_type (tref_qn (m_type m))], None, its, T.
+        rewrite Hlen. split; reflexivity.
+  - rewrite enc_elem_obj in H. destruct (struct_type S (real_qn m ty)) as [rt|]; [|discriminate].
+    destruct (assemble_from [] _) as [ks| |] eqn:EA; cbn [mbind] in H; try discriminate.
+    inversion H; subst. split; [|exact I]. repeat constructor. cbn [fst].
+    rewrite lengths_exact_eq. cbn [aty_len_ok forallb xsi_type is_aty_key fst snd].
+    replace (N.eqb ns_xsi ns_enc) with false by reflexivity. cbn [andb].
+    set (mems := all_members S rt) in *. set (pf := per_field_of S mems fs) in *.
+    assert (Hpf : forall kc o, In kc pf -> snd kc = MOk o -> out_ok (fst (fst kc)) o).
+    { intros kc o Hin Hr. apply per_field_In in Hin as [x [Hx Hs]]. rewrite Hs in Hr.
+      unfold field_out in Hr. destruct (snd (fst kc)); [discriminate|].
+      destruct (get_member (fst (fst kc)) mems) as [m'|] eqn:Eg; [|discriminate].
+      apply get_member_In in Eg as [_ Hname]. rewrite <- Hname.
+      rewrite Forall_forall in IH. exact (IH _ Hx m' o Hr). }
+    assert (Hks : ainv pf ks).
+    { unfold iter_keyed in EA. destruct (forallb _ pf) eqn:EF.
+      - eapply (assemble_inv pf Hpf _ [] ks); [| intros n0 [] | exact EA].
+        intros kc Hin. apply in_flat_map in Hin as [k [Hk Hin]].
+        destruct (lookup_key k pf) as [v|] eqn:El; [|destruct Hin].
+        destruct Hin as [<-|[]]. cbn [fst snd]. split; [|exact El].
+        unfold eordering in Hk. apply in_map_iff in Hk as [m' [<- _]]. reflexivity.
+      - exfalso. assert (Hex : exists kc, In kc pf /\ key_in (fst kc) (eordering mems) = false).
+        { clear - EF. induction pf as [|kc l IHl]; [discriminate|]. cbn [forallb] in EF.
+          destruct (key_in (fst kc) (eordering mems)) eqn:Ek.
+          - destruct (IHl EF) as [kc' [H1 H2]]. exists kc'. split; [right; exact H1 | exact H2].
+          - exists kc. split; [left; reflexivity | exact Ek]. }
+        destruct Hex as [kc [Hin Hk]].
+        apply (assemble_error _ kc Hin) with (acc := []) (ks := ks); [|exact EA].
+        intros o Ho. pose proof Hin as Hin2. apply per_field_In in Hin2 as [x [_ Hs]].
+        rewrite Hs in Ho. unfold field_out in Ho.
+        destruct kc as [[k b] r]. cbn [fst snd] in *. destruct b; [discriminate|].
+        destruct (get_member k mems) as [m'|] eqn:Eg; [|discriminate].
+        apply get_member_In in Eg as [Hm' Hname].
+        assert (Hkin : key_in (k, false) (eordering mems) = true).
+        { apply key_in_In. unfold eordering. apply in_map_iff. exists m'. split; [|exact Hm'].
+          unfold mkey. rewrite Hname. reflexivity. }
+        congruence. }
+    apply forallb_forall. intros n0 Hn0. apply (Hks n0 Hn0).
+Qed.
+
+Lemma array_length_exact_all_l : forall S m v ns,
+  enc_param S m v = MOk ns -> forallb lengths_exact ns = true.
+Proof.
+  intros S m v ns H. apply enc_param_inv in H as [o [Ho <-]].
+  destruct (elem_ok_all S v m o Ho) as [Hall Hpend].
+  destruct (snd o) as [a|]; cbn [apply_aty].
+  - destruct Hpend as [ns0 [ats [tx [its [T [Hfst ->]]]]]]. rewrite Hfst in *.
+    cbn [set_on_first]. rewrite N.eqb_refl. cbn [forallb]. rewrite andb_true_r.
+    inversion Hall as [|? ? [_ Hle] _]; subst. rewrite lengths_exact_eq in *.
+    apply andb_true_iff in Hle as [_ Hk]. rewrite set_attr_len_ok, Hk. reflexivity.
+  - apply forallb_forall. intros n Hn. rewrite Forall_forall in Hall. apply (Hall n Hn).
+Qed.
+
+Lemma mconcat_lengths {X} (g : X -> mres (list enode)) l : forall ns,
+  (forall x a, In x l -> g x = MOk a -> forallb lengths_exact a = true) ->
+  mconcat (map g l) = MOk ns -> forallb lengths_exact ns = true.
+Proof.
+  induction l as [|x l IH]; intros ns Hg H.
+  - cbn in H. inversion H. reflexivity.
+  - cbn [map mconcat] in H. destruct (g x) as [a| |] eqn:Ea; cbn [mbind] in H; try discriminate.
+    destruct (mconcat (map g l)) as [b| |] eqn:Eb; cbn [mbind] in H; try discriminate.
+    inversion H; subst. rewrite forallb_app, (Hg x a (or_introl eq_refl) Ea). cbn [andb].
+    apply IH; [|reflexivity]. intros y c Hy. apply Hg. right. exact Hy.
+Qed.
+
+Lemma request_lengths_exact_l : forall S bodyns method parts args body,
+  enc_body S bodyns method parts args = MOk body -> lengths_exact body = true.
+Proof.
+  intros S bodyns method parts args body H. unfold enc_body in H.
+  destruct (negb _); [discriminate|].
+  destruct (mconcat _) as [kids| |] eqn:E; cbn [mbind] in H; inversion H; subst.
+  rewrite lengths_exact_eq.
+  replace (aty_len_ok [style_attr] (length kids)) with true by reflexivity. cbn [andb].
+  eapply mconcat_lengths; [|exact E].
+  intros pa a _ Ha. exact (array_length_exact_all_l _ _ _ _ Ha).
 Qed.
 
 (* ------------------------------------------------------------------ *)
